@@ -3980,6 +3980,10 @@ static WBXMLError wbxml_strtbl_check_references(WBXMLEncoder *encoder, WBXMLList
             /* New Reference Element */
             if ((ref = wbxml_strtbl_element_create(string, stat_buff)) == NULL)
             {
+                /* 'string' has been extracted from the list: nobody else owns it */
+                if (!stat_buff)
+                    wbxml_buffer_destroy(string);
+
                 wbxml_list_destroy(referenced, wbxml_strtbl_element_destroy_item);
 
                 if (!stat_buff)
@@ -3995,6 +3999,8 @@ static WBXMLError wbxml_strtbl_check_references(WBXMLEncoder *encoder, WBXMLList
 
             if (!wbxml_list_append(referenced, (void *) ref))
             {
+                /* 'ref' is not in the list (it owns 'string', unless static) */
+                wbxml_strtbl_element_destroy(ref);
                 wbxml_list_destroy(referenced, wbxml_strtbl_element_destroy_item);
 
                 if (!stat_buff)
